@@ -56,7 +56,7 @@ class Obligation:
         self.model = None
         self.backend = ""
         self.time = 0.0
-        self.must_be_sat = kind == "cover"
+        self.must_be_sat = kind in ("cover", "cover_exit")
 
 
 _HQ = {}
